@@ -62,6 +62,13 @@ class VTuple(V):
         self.items = list(items)
 
 
+class VRecord(V):
+    """Dict display with constant string keys (keyword bundle for library calls); not a heap dict."""
+
+    def __init__(self, items):
+        self.items = dict(items)
+
+
 class VFunc(V):
     def __init__(*a, **kw):
         this, kind = a
